@@ -2,6 +2,7 @@
 import os
 
 import engine
+import gossip as G
 import vp
 from checks import prop, REPLAYERS
 
@@ -83,6 +84,29 @@ def cases(tier, seed):
     return allc
 
 
+B_INV = ["WithinBounds", "NeverGivesUpWhenForever", "GivesUpExactlyAfter"]
+
+
+def retry_policy(chk):
+    """The listeners' reconnect loop retries with pkg/backoff (retries = 0: for ever); the start-up join with
+    retries = 5. Backoff.tla exhaustively for small durations, then the real policy called the way the loops call
+    it (a fresh value per loop), every call judged by TLC (TraceB.tla)."""
+    quick = chk.tier == "quick"
+    for label, c in (("forever", {"Retries": 0, "Min": 10, "Max": 100, "MaxCalls": 8}),
+                     ("bounded", {"Retries": 3, "Min": 10, "Max": 100, "MaxCalls": 7}),
+                     ("min-above-max", {"Retries": 0, "Min": 50, "Max": 20, "MaxCalls": 5})):
+        G.model_check(chk, "C18-backoff-" + label, c, B_INV, ["Doubles", "StaysAtCap"], view=None, module="Backoff")
+    ms = 1000000
+    for label, r, mn, mx, calls in (("client", 0, 1 * ms, 100 * ms, 40), ("join", 5, 1 * ms, 60 * ms, 9),
+                                    ("min-above-max", 0, 3 * ms, 2 * ms, 6), ("equal", 2, 5 * ms, 5 * ms, 5)):
+        sched = {"retries": r, "minNs": mn, "maxNs": mx, "loops": 50 if quick else 2000, "calls": calls}
+        v, st = engine.run(chk, "beng", sched, "backoff-" + label, "TraceB",
+                           {"Retries": r, "Min": mn, "Max": mx, "MaxCalls": 1000000}, B_INV + ["NoStepViolation"],
+                           "beng-trace", what="the real retry policy", strip=("loops", "calls"))
+        if st.get("by_op", {}).get("Call", 0) == 0:
+            raise vp.Machinery("vacuous run: no Backoff() call")
+
+
 @prop("C18")
 def c18(chk):
     quick = chk.tier == "quick"
@@ -92,7 +116,9 @@ def c18(chk):
                 "under fairness; (2) three real piko server PROCESSES (binary built from the working tree) behind a "
                 "TCP load balancer on the upstream ports, two real upstream listeners first connected to the "
                 "victim; the victim receives SIGTERM or SIGKILL at the given phase; observed on the survivors' "
-                "admin/proxy ports and the listeners; judged by TLC (TraceC.tla)")
+                "admin/proxy ports and the listeners; judged by TLC (TraceC.tla); (3) the retry policy of the reconnect "
+                "loop (Backoff.tla: never gives up when retries = 0, waits within [min, 1.1 max], doubles up to the "
+                "cap) model-checked and the real pkg/backoff judged call by call (TraceB.tla)")
     chk.assumptions = ["bounded-time forms: terminates within grace period + 0.5 s; left seen within 0.3 s of exit; "
                        "listeners reconnected within 8 s; served again within 15 s",
                        "with two survivors both are notified of a graceful leave"]
@@ -101,6 +127,7 @@ def c18(chk):
     if not quick:
         model(chk, "C18-model-4", {"Node": {"a", "b", "c", "d"}, "Lsn": {"l1", "l2"}, "MaxNotify": 2}, timeout=3000)
     model_d6(chk, {"Node": {"a", "b"}, "Lsn": {"l1", "l2"}, "MaxNotify": 4})
+    retry_policy(chk)
     # the stop order on an in-process node with many upstream connections, observed from a peer
     v, st0 = engine.run(chk, "peng", {"mode": "stoporder", "n": 300, "sample": 3 if quick else 25}, "stop-order",
                         "TraceC", TRACE_CONSTS, ["NoStepViolation"], "peng-loss", what="the stopping node as seen by its peer",
@@ -134,3 +161,4 @@ def _replay(chk, obj):
 
 
 REPLAYERS["peng-loss"] = _replay
+REPLAYERS["beng-trace"] = lambda chk, obj: engine.replay(chk, obj, "the real retry policy")
